@@ -39,7 +39,6 @@ func VectorAggregation(
 			iter:        iter,
 			limit:       param,
 			less:        Sample.Less,
-			greater:     Sample.Greater,
 			grouper:     grouper,
 			groupLabels: groupLabels,
 		}, nil
@@ -48,7 +47,6 @@ func VectorAggregation(
 			iter:        iter,
 			limit:       param,
 			less:        Sample.Greater,
-			greater:     Sample.Less,
 			grouper:     grouper,
 			groupLabels: groupLabels,
 		}, nil
@@ -123,10 +121,9 @@ func (i *vectorAggIterator) Close() error {
 }
 
 type vectorAggHeapIterator struct {
-	iter    iterators.Iterator[Step]
-	limit   int
-	less    func(a, b Sample) bool
-	greater func(a, b Sample) bool
+	iter  iterators.Iterator[Step]
+	limit int
+	less  func(a, b Sample) bool
 
 	grouper     grouperFunc
 	groupLabels []logql.Label
@@ -159,7 +156,10 @@ func (i *vectorAggHeapIterator) Next(r *Step) bool {
 				metric: metric,
 				// To do ascending sorting we need a max heap: find out the biggest
 				// value in a heap of smallest values to compare with new sample.
-				heap: &sampleHeap{compare: i.greater},
+				//
+				// The root has to be the sample that less ranks last. Less and Greater both
+				// rank NaN first, so they are not the inverse of each other.
+				heap: &sampleHeap{compare: func(a, b Sample) bool { return i.less(b, a) }},
 			}
 
 			result[groupKey] = g
